@@ -1358,7 +1358,7 @@ namespace avel {
 
     [[nodiscard]]
     AVEL_FINL vec4x32f fdim(vec4x32f x, vec4x32f y) {
-        return avel::max(x - y, vec4x32f{0.0f});
+        return blend(x <= y, vec4x32f{0.0f}, x - y);
     }
 
     [[nodiscard]]
